@@ -1075,11 +1075,10 @@ def rule_dep(ctx):
     return dep_insts(ctx, "C05", ["reamber.bms.BMSMap.BMSMap.write"], skip_groups=())
 
 
-def rule_r12(ctx) -> List[R.Inst]:
+def rule_r12(ctx, rid: str = "C05.R12") -> List[R.Inst]:
     """measure-length channel (02): the writer emits metronome / K, the reader takes value * K, with one and the same K — the two are
     inverse only then (every bundled chart is in 4/4, where K / K and K * K / K cannot be told apart from their inverses)"""
     M = ctx.M
-    rid = "C05.R12"
     wfn = _write_notes_fn(ctx)
     wfile = M.mods[wfn.mod].rel
     rfn = M.fn(f"{BMSMAP}._read_notes")
